@@ -10,6 +10,7 @@ require (
 	github.com/pires/go-proxyproto v0.7.0
 	github.com/samber/lo v1.47.0
 	golang.org/x/crypto v0.37.0
+	golang.org/x/net v0.39.0
 	golang.org/x/time v0.5.0
 )
 
@@ -45,7 +46,6 @@ require (
 	github.com/vishvananda/netns v0.0.4 // indirect
 	github.com/xtaci/kcp-go/v5 v5.6.13 // indirect
 	golang.org/x/exp v0.0.0-20241204233417-43b7b7cde48d // indirect
-	golang.org/x/net v0.39.0 // indirect
 	golang.org/x/oauth2 v0.28.0 // indirect
 	golang.org/x/sync v0.13.0 // indirect
 	golang.org/x/sys v0.32.0 // indirect
